@@ -63,6 +63,7 @@ def model (line : String) : String :=
     match parseTr tr, parseRt rt, parseOptNat v, c.toNat? with
     | some tr, some rt, some v, some c => fmtServe (Model.NoResponse.serve tr rt v c)
     | _, _, _, _ => "bad-op"
+  | ["srvnf", _, _, _] => "n/a"
   | ["srvn", tr, rt, v, cs] =>
     match parseTr tr, parseRt rt, parseOptNat v, parseCodes cs with
     | some tr, some rt, some v, some cs => fmtServeCalls (Model.NoResponse.serveCalls tr rt v cs)
@@ -119,6 +120,12 @@ def judgeLine (line : String) : String :=
           let (acc, w) := expected tr rt v c
           s!"violates expected set={if acc then "accepted" else "refused"} wire={repr w} (other request options must not matter)"
       | _, _, _, _, _ => "violates unparsable-observation"
+    | ["srvnf", tr, rt, v], "set" :: _set :: "sent" :: _n :: rest =>
+      match parseTr tr, parseRt rt, parseOptNat v, parseSent rest with
+      | some tr, some rt, some v, some sent =>
+        if Spec.NoResponse.judgeWire tr rt v 132 sent then "ok"
+        else s!"violates the router's own 4.04 for a path without route: expected wire={repr (expected tr rt v 132).2}"
+      | _, _, _, _ => "violates unparsable-observation"
     | ["srvn", tr, rt, v, cs], "set" :: set :: "sent" :: _n :: rest =>
       match parseTr tr, parseRt rt, parseOptNat v, parseCodes cs, parseSent rest with
       | some tr, some rt, some v, some cs, some sent =>
